@@ -1041,6 +1041,48 @@ func (g *G) genC06(p *Plan, listing bool) {
 			ops = append(ops, lo)
 		}
 	}
+	if g.chance(0.008) {
+		// more parts, or more pending uploads, than the protocol's page of 1000
+		ops = ops[:0]
+		if g.chance(0.6) {
+			ops = append(ops, Op{K: "mpu-init", B: b, Key: "big", Meta: g.meta()})
+			np := g.pick2(999, 1000, 1001, 1203)
+			stride := g.pick2(1, 1, 7)
+			var refs []PartRef
+			for i := 1; i <= np; i++ {
+				ops = append(ops, Op{K: "mpu-part", Up: 0, Part: i * stride, Body: g.body(1 + g.rng.Intn(3))})
+				refs = append(refs, PartRef{N: i * stride})
+			}
+			for i, nl := 0, g.n(3, 6); i < nl; i++ {
+				lo := Op{K: g.pick("mpu-lsparts", "mpu-walkparts"), Up: 0, Max: g.pick2(0, 0, 400, 999, 1000, 1001, 5000)}
+				if lo.K == "mpu-lsparts" && g.chance(0.4) {
+					lo.HasMk, lo.Part = true, g.pick2(1, 500*stride, 999*stride, 1000*stride, 1001*stride)
+				}
+				ops = append(ops, lo)
+			}
+			if !listing {
+				ops = append(ops, Op{K: "mpu-complete", Up: 0, Parts: refs}, Op{K: "get", B: b, Key: "big"})
+			}
+		} else {
+			nu := g.pick2(999, 1000, 1001, 1100)
+			for i := 0; i < nu; i++ {
+				ops = append(ops, Op{K: "mpu-init", B: b, Key: g.pick("big", "dir/obj", "zeta")})
+			}
+			for i, nl := 0, g.n(3, 6); i < nl; i++ {
+				lo := Op{K: g.pick("mpu-lsuploads", "mpu-walkuploads"), B: b, Max: g.pick2(0, 0, 300, 999, 1000, 1001)}
+				if g.chance(0.3) {
+					lo.Prefix = g.pick("d", "dir/", "b", "z")
+				}
+				if g.chance(0.3) {
+					lo.Delim = "/"
+				}
+				ops = append(ops, lo)
+				if g.chance(0.5) {
+					ops = append(ops, Op{K: "mpu-abort", Up: g.rng.Intn(nu)})
+				}
+			}
+		}
+	}
 	bigP := 0.008
 	if g.thorough() {
 		bigP = 0.03
